@@ -4,6 +4,7 @@ import Driver.Codec13
 import Driver.Validator
 import Driver.Addr
 import Driver.Acl
+import Driver.WsJson
 
 def main (args : List String) : IO UInt32 := do
   match args with
@@ -13,6 +14,7 @@ def main (args : List String) : IO UInt32 := do
   | ["validator"] => ValidatorDrv.main; return 0
   | ["addr"] => AddrDrv.main; return 0
   | ["acl"] => AclDrv.main; return 0
+  | ["wsjson"] => WsJsonDrv.main; return 0
   | _ =>
     IO.eprintln "usage: driver <family>   (lines on stdin)"
     return 2
